@@ -103,8 +103,7 @@ class C07(Check):
             cids = sorted({c for c, _ in again}) or exp["include"]
             paths = sorted({p for _, ps in again for p in ps} | set(second["changed"]))
             manifest = any(p.split("/")[-1] in G.MANIFEST_FILES for p in paths)
-            bom = any((f.get("layout") or {}).get("bom") for f in exp["world_spec"]["files"] if f["path"] in paths)
-            v.append({"clause": "second-run-changes", "key": "C07:not-a-fixed-point:" + ("bom:" if bom else "") + ",".join(cids) + (":manifest" if manifest else ""),
+            v.append({"clause": "second-run-changes", "key": "C07:not-a-fixed-point:" + ",".join(cids) + (":manifest" if manifest else ""),
                       "detail": {"codemods": cids, "paths": paths[:5], "changed_bytes": sorted(second["changed"])[:5],
                                  "mutating_events": muts[:3], "include": exp["include"]}})
         return v
